@@ -816,6 +816,17 @@ def replaceNonesWithNonsense(
             realType = float
             defaultValue = NONE_MAP[realType]
 
+        # The first entry does not speak for the others when their types differ (e.g. ints followed
+        # by floats): use the type numpy promotes them all to, as it does for data without Nones.
+        if isinstance(val, np.ndarray):
+            dtypes = {np.asarray(d).dtype for d in data if d is not None}
+            if len(dtypes) > 1:
+                realType = np.result_type(*dtypes).type
+                defaultValue = np.full(val.shape, NONE_MAP[realType])
+        elif len({type(d) for d in data if d is not None}) > 1:
+            realType = np.array([d for d in data if d is not None]).dtype.type
+            defaultValue = NONE_MAP[realType]
+
         if isinstance(val, np.ndarray):
             data = np.array([d if d is not None else defaultValue for d in data])
         else:
